@@ -103,7 +103,13 @@ def _module(pid):
 
 
 def _worker_init():
+    import resource
     import torch
+    lim = int(os.environ.get("VERIF_WORKER_MEM_GB", "10")) << 30
+    try:  # a runaway allocation inside the library becomes a Python exception, not an OOM kill
+        resource.setrlimit(resource.RLIMIT_AS, (lim, lim))
+    except (ValueError, OSError):
+        pass
     torch.set_num_threads(1)
     torch.set_grad_enabled(False)
     signal.signal(signal.SIGALRM, _alarm)
@@ -208,12 +214,20 @@ def main_run(pid, tier, seed, jobs, only=None, replay=None):
         for w in work:
             results.append(run_case(w))
     else:
+        from concurrent.futures import ProcessPoolExecutor, as_completed
+        from concurrent.futures.process import BrokenProcessPool
         ctx = mp.get_context("forkserver")
         ctx.set_forkserver_preload(["kmc.preload"])
-        with ctx.Pool(min(jobs, len(work)), initializer=_worker_init) as pool:
-            # longest-first is only a scheduling hint; merge order is canonical below
-            for r in pool.imap_unordered(run_case, work, chunksize=1):
-                results.append(r)
+        with ProcessPoolExecutor(min(jobs, len(work)), mp_context=ctx, initializer=_worker_init) as pool:
+            futs = {pool.submit(run_case, w): w[1] for w in work}
+            try:
+                for f in as_completed(futs):
+                    results.append(f.result())
+            except BrokenProcessPool:
+                done = {r.case_id for r in results}
+                lost = [c for c in ids if c not in done]
+                print(f"HARNESS-ERROR a worker process died (killed / out of memory); {len(lost)} cases unfinished, first: {lost[:3]}")
+                return 2
     order = {cid: i for i, cid in enumerate(ids)}
     results.sort(key=lambda r: order[r.case_id])
 
